@@ -36,6 +36,7 @@ type CallEvent struct {
 	ResTys []types.Type
 	ArgTys []types.Type
 	Havoc  bool // loop-head marker: calls to these designators may have happened an unknown number of times
+	HavocVals map[string]Term // one stable unknown per (designator, result index) of a havoc marker
 	Seq    int
 }
 
@@ -232,4 +233,19 @@ func cloneTaint(m map[string][]string) map[string][]string {
 		n[k] = v
 	}
 	return n
+}
+
+// havocVal: the unknown result of the last call hidden behind a loop-head marker. It is
+// one constant per marker (not a fresh one per mention), so that loop invariants can
+// speak about it.
+func (ev CallEvent) havocVal(u *Unit, name string, idx int, so Sort) Term {
+	k := fmt.Sprintf("%s#%d#%s", name, idx, so)
+	if t, ok := ev.HavocVals[k]; ok {
+		return t
+	}
+	t := u.Fresh("unknown_lastresult", so)
+	if ev.HavocVals != nil {
+		ev.HavocVals[k] = t
+	}
+	return t
 }
